@@ -118,7 +118,7 @@ def ensure_static_built(targets=None, timeout=1800):
         rc, out, err, dt = run(["sh", str(VERIF / "tools" / "gen_coqproject.sh")], timeout=120)
         if rc != 0:
             return False, out + err
-        cmd = ["make", "-j", str(NCPU)] + list(targets or [])
+        cmd = ["make", "-j", str(NCPU), "COQC=timeout 900 coqc"] + list(targets or [])
         rc, out, err, dt = run(cmd, cwd=COQ, timeout=timeout)
         return rc == 0, (out + err)[-4000:]
 
